@@ -348,6 +348,7 @@ class MarkFeatureWriter(BaseFeatureWriter):
         ctx.anchorLists = self._getAnchorLists()
         ctx.anchorPairs = self._getAnchorPairs()
         ctx.feaScripts = set(ast.getScriptLanguageSystems(feaFile).keys())
+        ctx.markToMarkLookupNames = set()
 
     def shouldContinue(self):
         if not self.context.anchorPairs:
@@ -836,8 +837,12 @@ class MarkFeatureWriter(BaseFeatureWriter):
         if not attachments:
             return
         prefix = (featureTag + "_") if featureTag is not None else ""
-        # (the anchor name may hold characters that are not legal in a lookup name)
-        lookupName = ast.makeFeaClassName(f"{prefix}mark2mark_{anchorName}")
+        # (the anchor name may hold characters that are not legal in a lookup name,
+        # and two anchor names may differ in nothing else)
+        lookupName = ast.makeFeaClassName(
+            f"{prefix}mark2mark_{anchorName}", self.context.markToMarkLookupNames
+        )
+        self.context.markToMarkLookupNames.add(lookupName)
         filteringClass = self._makeMarkFilteringSetClass(
             lookupName,
             attachments,
